@@ -1,5 +1,6 @@
 """C14 — generator aggregator: union of all sources, per-source order preserved (generator_aggregator.h)."""
-import random
+import os, random
+import vlib
 from vlib import Case
 
 RULE = ("0..9 scripted source generators (synchronous / suspending on pending awaits / throwing / empty / with RAII locals; for "
@@ -145,25 +146,33 @@ def close_case(c):
             sim = AggSim(scripts)
         elif sim is None:
             continue
-        elif o[0] == 1 and len(o) == 3 and sim.st in ("init", "yield", "final") and 0 <= o[1] <= 5 and not (ha and o[1] == 1):
+        elif o[0] == 1 and len(o) == 3 and sim.st in ("init", "yield", "final") and 0 <= o[1] <= 6 and not (ha and o[1] == 1):
             sim.access()
         elif o[0] == 2 and len(o) == 4 and sim.st not in ("dead",) and 0 <= o[1] < len(sim.s) and sim.s[o[1]].st == "pend":
             sim.complete(o[1])
         elif o[0] == 3 and len(o) == 1 and sim.st in ("init", "yield", "final"):
             sim.destroy()
     if sim is not None:
-        guard = 0
-        while sim.st in ("wait", "dying") and sim.pending() and guard < 200:
-            i = sim.pending()[0]
-            ops.append([2, i, 1, 0])
-            sim.complete(i)
-            guard += 1
+        ops += sweeps(scripts)
     return Case(c.engine, c.name, ops, c.meta)
+
+
+def sweeps(scripts):
+    """Completion ops that close a case whatever order the implementation pops its completion queue in: every
+    source is completed once per round (rejected when it is not suspended), for as many rounds as the longest chain
+    of pending awaits.  With the library's FIFO queue the position-only simulation already issued every needed
+    completion and these ops are all rejected."""
+    rounds = 1 + max([sum(1 for i in range(0, len(sc) - 1, 2) if sc[i] == 3) for sc in scripts] + [0])
+    out = []
+    for _ in range(rounds):
+        for i in range(len(scripts)):
+            out.append([2, i, 1, 0])
+    return out
 
 
 def gen_case(rng, engine, name, scripts, n_acc, destroy_early, malformed, bg_complete_p=0.3):
     ha = engine == "aggr1"
-    styles = [0, 2, 3, 4, 5] if ha else [0, 1, 2, 3, 4, 5]
+    styles = [0, 2, 3, 4, 5, 6] if ha else [0, 1, 2, 3, 4, 5, 6]
     ops = [[10] + sc for sc in scripts]
     if malformed and rng.random() < 0.3:
         ops.append([1, 0, 0])
@@ -196,6 +205,8 @@ def gen_case(rng, engine, name, scripts, n_acc, destroy_early, malformed, bg_com
             ops.append([4])
         if destroy_early is not None and a + 1 >= destroy_early:
             break
+    if rng.random() < 0.5:
+        ops += sweeps(scripts)          # order-agnostic closing of an access that may still be outstanding
     if sim.st in ("init", "yield", "final"):
         ops.append([3])
         r = sim.destroy()
@@ -207,6 +218,7 @@ def gen_case(rng, engine, name, scripts, n_acc, destroy_early, malformed, bg_com
             i = rng.choice(p)
             ops.append([2, i, rng.randint(1, 50), rng.randint(0, 1)])
             r = sim.complete(i)
+    ops += sweeps(scripts)              # ... and of a destructor that may still be blocked
     if malformed and rng.random() < 0.5:
         ops.append(rng.choice([[3], [1, 0, 0], [2, 0, 1, 0], [4]]))
     return Case(engine, name, ops)
@@ -275,4 +287,118 @@ def signature(case, impl_obs, model_obs):
     return "%s:%s" % (case.engine, kind)
 
 
-PARTS = [{"name": "vm_aggr", "harness": "vm_aggr.cpp", "gen": gen, "timeout_case": 3}]
+# ---------------------------------------------------------------------------------------------------------------
+# Two-pass correspondence.  C14 does not fix the order in which queued completions of different sources are popped,
+# so the model takes that order as an input: the implementation runs first, the source of every delivered value is
+# read off its trace (values are 1000*source + j) and handed to the model as the pop preference of that op.  A
+# rewrite of the completion queue (LIFO, priority ...) therefore stays silent, while loss, duplication, per-source
+# disorder, wrong termination etc. still show up in the oracle and in the comparison.
+def has_echo(case):
+    return any(o and o[0] == 10 and any(o[i] == 9 for i in range(1, len(o) - 1, 2)) for o in case.ops)
+
+
+def augment(case, impl_obs):
+    scripts = [o[1:] for o in case.ops if o and o[0] == 10 and len(o) % 2 == 1]
+    vals = [set(sc[i + 1] for i in range(0, len(sc) - 1, 2) if sc[i] == 1) for sc in scripts]
+    echo = [k for k, sc in enumerate(scripts) if any(sc[i] == 9 for i in range(0, len(sc) - 1, 2))] if case.engine == "aggr1" else []
+
+    def source_of(v):
+        cand = [k for k, vs in enumerate(vals) if v in vs]
+        if len(cand) == 1 and not (echo and v < 1000):
+            return cand[0]
+        if not cand and len(echo) == 1:
+            return echo[0]          # an echoed argument can only come from the one echoing source
+        return None
+
+    ops = []
+    for k, op in enumerate(case.ops):
+        o = list(op)
+        if k < len(impl_obs) and o and o[0] in (1, 2):
+            a = impl_obs[k].split()
+            base = 3 if o[0] == 1 else 4
+            if len(o) == base and len(a) > 2 and a[0] == "0" and a[1] == "1":
+                try:
+                    src = source_of(int(a[2]))
+                    if src is not None:
+                        o = o + [src]
+                except ValueError:
+                    pass
+        ops.append(o)
+    return Case(case.engine, case.name, ops, case.meta)
+
+
+def n_throwers(case):
+    return sum(1 for o in case.ops if o and o[0] == 10 and any(o[i] == 4 for i in range(1, len(o) - 1, 2)))
+
+
+def obs_equal(case, m, i):
+    """with two or more throwing sources the code of the reported exception depends on the pop order of the
+    finished sources, which the value trace does not reveal: compare such lines by kind only (the oracle checks that
+    the code is the code of one of the throwing sources)"""
+    if m == i:
+        return True
+    if len(m) != len(i) or n_throwers(case) < 2:
+        return False
+    for lm, li in zip(m, i):
+        if lm == li:
+            continue
+        a, b = lm.split(), li.split()
+        if len(a) > 2 and len(b) > 2 and a[0] == b[0] == "0" and a[1] == b[1] == "2" and a[3:] == b[3:]:
+            continue
+        return False
+    return True
+
+
+def correspond2(ctx, part, cases):
+    import sys
+    prop = sys.modules[__name__]
+    ok, binary, msg = vlib.build_harness(part["harness"], flags=part.get("flags", vlib.SAN_FLAGS),
+                                         compiler=part.get("compiler", "g++"), extra=part.get("extra", ""))
+    if not ok:
+        ctx.notes.append({"kind": "harness-build", "harness": part["harness"], "log": msg})
+        return
+    impl, diag = vlib.run_impl(binary, cases, ctx.tmp, timeout_case=part.get("timeout_case", 20), env_extra=part.get("env"))
+    aug = [augment(c, impl.get(c.name, [])) for c in cases]
+    cpath = os.path.join(ctx.tmp, "cases2_%s.txt" % part["name"])
+    vlib.write_cases(aug, cpath)
+    model = vlib.modelrun(cpath)
+    names = [c.name for c in cases]
+    opath = os.path.join(ctx.tmp, "impl2_%s.txt" % part["name"])
+    vlib.write_obs(impl, names, opath)
+    verdict = vlib.oracle(cpath, opath)
+    for c in cases:
+        m, i = model.get(c.name, ["MISSING"]), impl.get(c.name, ["MISSING"])
+        if i == ["SKIPPED"]:
+            ctx.cov["skipped_after_failures"] = ctx.cov.get("skipped_after_failures", 0) + 1
+            continue
+        ctx.cov["evaluations"] += 1
+        key = (c.engine, tuple(tuple(o) for o in c.ops))
+        if nontrivial(c, m) and key not in ctx.distinct:
+            ctx.distinct.add(key)
+        for o in c.ops:
+            k = "%s:op%s" % (c.engine, o[0] if o else "")
+            ctx.cov["distribution"][k] = ctx.cov["distribution"].get(k, 0) + 1
+        agree = obs_equal(c, m, i)
+        crashed = bool(i) and (i[-1].startswith("CRASH") or i[-1] == "HANG" or i[-1] == "MISSING")
+        orc = verdict.get(c.name, "MISSING")
+        if agree and orc == "OK" and not crashed:
+            ctx.cov["traces_validated_against_impl"] += 1
+            continue
+        if not agree:
+            ctx.cov["disagreements"] += 1
+        if orc != "OK" or crashed:
+            ctx.failing.append({"case": c, "impl": i, "model": m, "why": "crash" if crashed else "oracle", "part": part,
+                                "agree": agree, "diag": diag.get(c.name, "")})
+        else:
+            ctx.notes.append({"kind": "correspondence", "part": part["name"], "case": c.to_json(), "model": m, "impl": i})
+    for c in cases[:2]:
+        if len(ctx.cov["samples"]) < 6:
+            ctx.cov["samples"].append(c.to_json())
+
+
+def extra(ctx):
+    correspond2(ctx, PARTS[0], gen(ctx.seed, ctx.tier))
+
+
+# the generated cases go through the two-pass correspondence (extra); the standard one-pass path runs the corpus only
+PARTS = [{"name": "vm_aggr", "harness": "vm_aggr.cpp", "gen": lambda seed, tier: [], "timeout_case": 3}]
